@@ -325,6 +325,13 @@ Definition mut_header (nodeid we : list N) : list N :=
 Definition tw_entry := (N * list (N * N * list N) * list (N * list N) * option N)%type.
 Definition tw_sh (e : tw_entry) : N := let '(sh, _, _, _) := e in sh.
 
+(* BucketWriter._is_finished: the distinct byte ranges written so far (the
+   RangeMap _already_written, all inside [0, size)) add up to the allocated
+   size, i.e. their union is the whole share.  ranges are (offset, length). *)
+Definition in_range (i : N) (r : N * N) : bool := (fst r <=? i) && (i <? fst r + snd r).
+Definition covered (size : N) (ranges : list (N * N)) : bool :=
+  forallb (fun i => existsb (in_range i) ranges) (map N.of_nat (seq 0 (N.to_nat size))).
+
 (* `order` everywhere: the share numbers of the bucket in os.listdir order
    (the order in which the real code visits them) *)
 Inductive sop :=
@@ -332,6 +339,7 @@ Inductive sop :=
 | ImmWrite (si sh size off : N) (data : list N)
 | ImmClose (si sh : N)
 | ImmAbort (si sh : N)
+| ImmWriteHttp (si sh size : N) (prev : list (N * N)) (off : N) (data : list N)
 | AddLease (si : N) (order : list N) (rec_imm rec_mut : list N)
 | RenewLease (si : N) (order : list N) (hs : list N) (newexp : N)
 | MutWritev (si : N) (order : list N) (nodeid we : list N) (tw : list tw_entry)
@@ -481,6 +489,14 @@ Definition ops_of (o : sop) (s : state) : list lop :=
       then [(WriteAt (Incoming si sh) (12 + off) data, false)] else []
   | ImmClose si sh => [(Rename (Incoming si sh) (Final si sh), false)]
   | ImmAbort si sh => [(Unlink (Incoming si sh), false)]
+  | ImmWriteHttp si sh size prev off data =>
+      (* HTTPServer.write_share_data: bucket.write(), and bucket.close() as soon
+         as write() reports the upload finished; `prev` = ranges accepted before *)
+      if off + flen data <=? size
+      then (WriteAt (Incoming si sh) (12 + off) data, false)
+           :: (if covered size ((off, flen data) :: prev)
+               then [(Rename (Incoming si sh) (Final si sh), false)] else [])
+      else []
   | AddLease si order rec_imm rec_mut =>
       seq_steps (map (fun sh => lease_step (Final si sh) rec_imm rec_mut) (existing s si order)) s
   | RenewLease si order hs newexp =>
@@ -505,6 +521,7 @@ Definition touched (o : sop) : list path :=
   | ImmWrite si sh _ _ _ => [Incoming si sh]
   | ImmClose si sh => [Incoming si sh; Final si sh]
   | ImmAbort si sh => [Incoming si sh]
+  | ImmWriteHttp si sh _ _ _ _ => [Incoming si sh; Final si sh]
   | AddLease si order _ _ => map (Final si) order
   | RenewLease si order _ _ => map (Final si) order
   | MutWritev si _ _ _ tw _ => map (fun e => Final si (tw_sh e)) tw
@@ -554,6 +571,42 @@ Definition upload_sops (si sh size : N) (rec : list N) (writes : list (N * list 
 (* the incoming file at the moment close() renames it *)
 Definition file_at_close (size : N) (rec : list N) (writes : list (N * list N)) : file :=
   run_fops (imm_create_fops size rec ++ upload_write_fops size writes) [].
+
+(* the same upload over the HTTP storage protocol: no explicit close; the
+   bucket is closed by the write that completes the share, later writes are
+   refused (the bucket is gone) *)
+Fixpoint http_write_ops (si sh size : N) (prev : list (N * N)) (writes : list (N * list N))
+  : list pop :=
+  match writes with
+  | [] => []
+  | w :: r =>
+      if fst w + flen (snd w) <=? size
+      then WriteAt (Incoming si sh) (12 + fst w) (snd w)
+           :: (if covered size ((fst w, flen (snd w)) :: prev)
+               then [Rename (Incoming si sh) (Final si sh)]
+               else http_write_ops si sh size ((fst w, flen (snd w)) :: prev) r)
+      else http_write_ops si sh size prev r
+  end.
+
+Definition http_upload_ops (si sh size : N) (rec : list N) (writes : list (N * list N)) : list pop :=
+  imm_create_ops (Incoming si sh) size rec ++ http_write_ops si sh size [] writes.
+
+(* ... as the server operations it consists of (after the allocate) *)
+Fixpoint http_sops (si sh size : N) (prev : list (N * N)) (writes : list (N * list N)) : list sop :=
+  match writes with
+  | [] => []
+  | w :: r =>
+      ImmWriteHttp si sh size prev (fst w) (snd w)
+      :: (if fst w + flen (snd w) <=? size
+          then (if covered size ((fst w, flen (snd w)) :: prev) then []
+                else http_sops si sh size ((fst w, flen (snd w)) :: prev) r)
+          else http_sops si sh size prev r)
+  end.
+
+(* accepted writes as ranges, most recent first *)
+Definition write_ranges (size : N) (writes : list (N * list N)) : list (N * N) :=
+  rev (flat_map (fun w => if fst w + flen (snd w) <=? size
+                          then [(fst w, flen (snd w))] else []) writes).
 
 (* what the uploader wrote, as share data *)
 Definition written_data (size : N) (writes : list (N * list N)) : list N :=
